@@ -160,6 +160,9 @@ func (fs LocalFileSystem) Create(ctx context.Context, name string, body io.ReadC
 	}
 	fi, _ = fs.Stat(ctx, name)
 	created = fi == nil
+	if fi != nil && fi.IsDir {
+		return nil, false, NewHTTPError(http.StatusMethodNotAllowed, fmt.Errorf("webdav: cannot PUT onto a collection"))
+	}
 
 	if err := checkConditionalMatches(fi, opts.IfMatch, opts.IfNoneMatch); err != nil {
 		return nil, false, err
@@ -167,7 +170,12 @@ func (fs LocalFileSystem) Create(ctx context.Context, name string, body io.ReadC
 
 	wc, err := os.Create(p)
 	if err != nil {
-		return nil, false, errFromOS(err)
+		err = errFromOS(err)
+		if internal.IsNotFound(err) {
+			// The parent collection doesn't exist
+			err = NewHTTPError(http.StatusConflict, err)
+		}
+		return nil, false, err
 	}
 	defer wc.Close()
 
